@@ -31,6 +31,7 @@ func runC10(c *Ctx) {
 		checkProvenance(c, fn)
 	}
 	checkFileCounter(c, ev)
+	checkDocTotal(c)
 	checkS2(c, ev)
 	ruleS3(c, "S3")
 	ruleS4(c, "S4")
@@ -329,5 +330,59 @@ func checkS2(c *Ctx, fn *ssa.Function) {
 		} else {
 			r.Finding("S2", key, c.P.pos(call.Pos()), "its error does not reach a return: processing continues after a failed document")
 		}
+	}
+}
+
+// checkDocTotal: the "no document at all" fallback of EvaluateFiles tests a
+// total accumulated over every file: phi(0, total + processed).
+func checkDocTotal(c *Ctx) {
+	r := c.R
+	fn := c.libFunc("streamEvaluator.EvaluateFiles")
+	if fn == nil {
+		r.Fatal("anchor missing: (*streamEvaluator).EvaluateFiles")
+		return
+	}
+	var evalCall *ssa.Call
+	eachInstr(fn, func(ins ssa.Instruction) {
+		if call, ok := ins.(*ssa.Call); ok && call.Call.StaticCallee() != nil && call.Call.StaticCallee().Name() == "Evaluate" {
+			evalCall = call
+		}
+	})
+	n := 0
+	eachInstr(fn, func(ins ssa.Instruction) {
+		ifi, ok := ins.(*ssa.If)
+		if !ok {
+			return
+		}
+		bo, ok := ifi.Cond.(*ssa.BinOp)
+		if !ok || bo.Op != token.EQL || !isZeroConst(bo.Y) {
+			return
+		}
+		phi, ok := bo.X.(*ssa.Phi)
+		if !ok {
+			return
+		}
+		n++
+		key := "EvaluateFiles/total-documents"
+		acc := false
+		for _, e := range phi.Edges {
+			if add, ok := e.(*ssa.BinOp); ok && add.Op == token.ADD && (add.X == ssa.Value(phi) || add.Y == ssa.Value(phi)) {
+				other := add.Y
+				if add.Y == ssa.Value(phi) {
+					other = add.X
+				}
+				if ex, ok := other.(*ssa.Extract); ok && evalCall != nil && ex.Tuple == ssa.Value(evalCall) {
+					acc = true
+				}
+			}
+		}
+		if acc {
+			r.Discharge("S1", key, c.P.pos(bo.Pos()), "the fallback to a null document tests the sum of the documents of all files")
+		} else {
+			r.Finding("S1", key, c.P.pos(bo.Pos()), "the `no documents` fallback does not test a total accumulated over all files: an empty last file appends a spurious null document (N inputs give N+1 outputs)")
+		}
+	})
+	if n == 0 {
+		r.Note("S1: EvaluateFiles has no zero-documents fallback test any more")
 	}
 }
